@@ -27,6 +27,13 @@ CHECKS = {
         "design_ref": "DESIGN.md section 4, C03",
         "note": "trusted: symx, ghost-state oracle (appendix A.5), CPython refcounting; bounds: K<=4 all / K=5 partially (quick), K<=5 all / K=6 partially (thorough), <=4 handles, two node classes",
     },
+    "C15": {
+        "engine": "CrossHair (engine X) + symx (engine P)",
+        "technique": "CrossHair symbolic execution (z3) of the real CodePoint/CodeRange/CodeOrigin methods over unbounded symbolic integers and symbolic text, one PEP-316 obligation per law with reachability twin; symx exploration of origin tuples for the flattening rules",
+        "text": "Interval laws (validation, containment partial order, symmetric overlap incl. touching, before-relations, hull contains/commutative/associative/idempotent) are 'Confirmed over all paths' for ALL integers; the hull-merge / get_raw slice law for all texts up to 3-4 characters; the flat multi-origin rules for every tuple of up to 3 (quick) / 4 (thorough) origins from a pool of 21 operands of every kind.",
+        "design_ref": "DESIGN.md section 4, C15",
+        "note": "trusted: CrossHair's int/str model, z3, the consistent index->(line,column) map for hull equality; rejection messages render integers, so those two obligations are range-bounded",
+    },
 }
 NOT_APPLICABLE = {
     "C11": "input is a class definition consumed by typing/abc introspection (get_origin/get_args/get_type_hints/issubclass): no engine can keep an annotation symbolic, every path would be one concrete class definition, i.e. enumeration of concrete runs rather than a solver verdict (DESIGN.md section 5)",
